@@ -360,6 +360,7 @@ theorem dispatch_frame (ca : Ca) (child : Handle) (c : ChildRec) (pl : Payload) 
           | true => exact absurd hx hu
           | false => rfl
         simp only [huf, Bool.false_eq_true, if_false]
+        split <;>
         (refine ⟨?_, ?_, ?_, ?_, ?_, ?_, ?_, ?_⟩ <;>
           first | rfl | trivial | (intro _ _; rfl) | (intro _ _; trivial) | (intro s h; exact h) |
             (intro ce h; exact Or.inl h))
@@ -372,7 +373,8 @@ def ReplyFor (ca ca' : Ca) (child : Handle) (c : ChildRec) : Payload → Payload
       lookup ca.classes cls = some res ∧ subset grant c.resources = true ∧ subset grant res = true
   | .revoke cls key, rp =>
     rp = .revokeResponse cls key ∧
-      ((lookup ca.classes cls = none ∧ ca' = ca) ∨ c.inUse.any (·.1 == key) = true)
+      ((lookup ca.classes cls = none ∧ ca' = ca) ∨ c.inUse.any (·.1 == key) = true ∨
+        (c.revoked.contains key = true ∧ ca' = ca))
   | _, _ => False
 
 theorem dispatch_reply (ca : Ca) (child : Handle) (c : ChildRec) (pl rp : Payload) (ca' : Ca)
@@ -419,10 +421,16 @@ theorem dispatch_reply (ca : Ca) (child : Handle) (c : ChildRec) (pl rp : Payloa
     | some res =>
       simp only [hc] at h
       cases hu : c.inUse.any (·.1 == key) with
-      | false => simp [hu] at h
+      | false =>
+        simp only [hu, Bool.false_eq_true, if_false] at h
+        split at h
+        · rename_i hrev
+          simp only [Prod.mk.injEq, Option.some.injEq] at h
+          exact ⟨h.2.symm, Or.inr (Or.inr ⟨hrev, h.1.symm⟩)⟩
+        · simp at h
       | true =>
         simp only [hu, if_true, Prod.mk.injEq, Option.some.injEq] at h
-        exact ⟨h.2.symm, Or.inr hu⟩
+        exact ⟨h.2.symm, Or.inr (Or.inl hu)⟩
 
 /-! ### the automatic un-suspension -/
 
@@ -677,6 +685,18 @@ theorem fate_fail_iff (ca : Ca) (c : ChildRec) (ku : Key × String) :
     rw [fate_of_slot ca c ku cres s hc hs]
     simp [h1, h2, h3]
 
+/-- The keys marked revoked after the un-suspension were revoked before or were in use. -/
+theorem unsuspend_revoked (ca : Ca) (child : Handle) (c : ChildRec) (ca1 : Ca) (c1 : ChildRec)
+    (h : unsuspend ca child c = some (ca1, c1)) :
+    ∀ k ∈ c1.revoked, k ∈ c.revoked ∨ ∃ ku ∈ c.inUse, ku.1 = k := by
+  obtain ⟨_, hc1, _⟩ := unsuspend_eq_some ca child c ca1 c1 h
+  subst hc1
+  intro k hk
+  simp only [unsuspendedRec, List.mem_append, List.mem_map, List.mem_filter] at hk
+  rcases hk with ⟨ku, ⟨hku, _⟩, rfl⟩ | hk
+  · exact Or.inr ⟨ku, hku, rfl⟩
+  · exact Or.inl hk
+
 /-- An answered request was dispatched on the state `X` after the un-suspension (the state itself
 for a sender that was not suspended). -/
 theorem processRequest_replied (ca : Ca) (child : Handle) (c : ChildRec) (pl : Payload) (ca2 : Ca)
@@ -684,14 +704,17 @@ theorem processRequest_replied (ca : Ca) (child : Handle) (c : ChildRec) (pl : P
     ∃ X cX, dispatch X child cX pl = (ca2, some p) ∧ X.classes = ca.classes ∧
       cX.resources = c.resources ∧ (∀ ku ∈ cX.inUse, ku ∈ c.inUse) ∧
       (c.suspended = false → X = ca ∧ cX = c) ∧
-      (c.suspended = true → unsuspend ca child c = some (X, cX)) := by
+      (c.suspended = true → unsuspend ca child c = some (X, cX)) ∧
+      (∀ k ∈ cX.revoked, k ∈ c.revoked ∨ ∃ ku ∈ c.inUse, ku.1 = k) := by
   rcases processRequest_cases ca child c pl with ⟨hs, he⟩ | ⟨_, _, he⟩ | ⟨hs, ca1, c1, hu, he⟩
   · rw [he] at h
-    exact ⟨ca, c, h, rfl, rfl, fun _ x => x, fun _ => ⟨rfl, rfl⟩, fun x => absurd (hs.symm.trans x) (by decide)⟩
+    exact ⟨ca, c, h, rfl, rfl, fun _ x => x, fun _ => ⟨rfl, rfl⟩, fun x => absurd (hs.symm.trans x) (by decide),
+      fun _ hk => Or.inl hk⟩
   · rw [he] at h; cases h
   · rw [he] at h
     obtain ⟨_, _, u3, _, _, ⟨_, ures, _, uin⟩, _⟩ := unsuspend_frame ca child c ca1 c1 hu
-    exact ⟨ca1, c1, h, u3, ures, uin, (fun x => absurd (hs.symm.trans x) (by decide)), fun _ => hu⟩
+    exact ⟨ca1, c1, h, u3, ures, uin, (fun x => absurd (hs.symm.trans x) (by decide)), fun _ => hu,
+      unsuspend_revoked ca child c ca1 c1 hu⟩
 
 /-- `dispatch` keeps the sender registered, with the same identity key, entitlement and
 suspension state. -/
@@ -729,7 +752,9 @@ theorem dispatch_child_rec (ca : Ca) (child : Handle) (c : ChildRec) (pl : Paylo
       | true =>
         simp only [if_true]
         exact ⟨_, lookup_update_eq ca.children child _ c hl, rfl, rfl, rfl⟩
-      | false => simpa using same
+      | false =>
+        simp only [Bool.false_eq_true, if_false]
+        split <;> exact same
 
 /-- What an accepted delta consists of. -/
 theorem delta_accepted (p : Publisher) (els : List PElem) (h : els.findSome? (elemError p) = none) :
